@@ -6,6 +6,7 @@ CONSTANTS
   MaxLen = 5
   MXm = {0}
   MWraps = "all"
+  MForms = {"D"}
   MSrcs = {"peer", "foreign"}
   GenK = 1
 VIEW View
